@@ -16,6 +16,11 @@ EXTENDS Integers, Sequences, FiniteSets, TLC
 
 Ids == {1, 2}
 Cfgs == {"A", "B", "C"}          \* C has the same array shapes as A (grids, q-points, modes) but different data
+\* The files of A and of C can also be calculated under a second settings file of the same directory (variant "2": the same input
+\* files, grid sizes and interpolation, another volume_ratio): a configuration is the pair (data the path holds, settings variant),
+\* written as the string  data \o variant.
+Variants == {"", "2"}
+HasVariant(c, v) == v = "" \/ c \in {"A", "C"}
 Quantities == {"modulus_adiabatic", "modulus_isothermal", "tp_modulus_adiabatic", "tp_modulus_isothermal", "tp_bulk_vrh", "tp_vp", "tp_volumes", "compliances"}
 Writes == {<<"tp", "cij">>, <<"tp", "bm_VRH">>, <<"tv", "p">>}
 Seeds == {"0", "1", "2", "random"}
@@ -35,9 +40,10 @@ LInit == /\ env \in [seed : Seeds, cwd : Cwds] /\ calcs = [i \in Ids |-> "none"]
          /\ wd = "start" /\ disk = [c \in Cfgs |-> c]
          /\ obs = <<"none", <<>>>> /\ hist = <<>>
 \* a calculator is what the files at its settings path hold WHEN it is constructed
-Construct(i, c) == /\ calcs[i] = "none" /\ calcs' = [calcs EXCEPT ![i] = disk[c]]
-                   /\ obs' = <<"constructed", disk[c]>> /\ hist' = Append(hist, <<"Construct", i, c>>)
-                   /\ UNCHANGED <<env, wd, disk, shared>>
+Construct(i, c, v) == /\ calcs[i] = "none" /\ HasVariant(c, v) /\ HasVariant(disk[c], v)
+                      /\ calcs' = [calcs EXCEPT ![i] = disk[c] \o v]
+                      /\ obs' = <<"constructed", disk[c] \o v>> /\ hist' = Append(hist, <<"Construct", i, c \o v>>)
+                      /\ UNCHANGED <<env, wd, disk, shared>>
 \* the user replaces the files at path c by those of data set d (same file names, other content); calculators that exist keep
 \* what they read, calculators constructed afterwards see the new content (nothing may remember a path's old content)
 Rewrite(c, d) == /\ disk[c] # d /\ disk' = [disk EXCEPT ![c] = d]
@@ -52,7 +58,13 @@ WriteOutput(i) == /\ calcs[i] # "none" /\ obs' = <<"files", Ref(calcs[i], "write
 \* symmetry filling applied again to the calculator's (already filled) static table: nothing changes
 Refill(i) == /\ calcs[i] # "none" /\ obs' = <<"table", Ref(calcs[i], "static_table")>>
              /\ hist' = Append(hist, <<"Refill", i>>) /\ UNCHANGED <<env, wd, disk, calcs, shared>>
-LNext == \/ \E i \in Ids, c \in Cfgs : Construct(i, c)
+\* the command line: `cij run SETTINGS` / `cij fill -s SYSTEM TABLE` on the files a path holds now, in a child process started by this
+\* one (it inherits the hash seed and the working-directory kind).  What it writes / prints is a function of those files alone, and
+\* nothing in this process changes.
+Cli(cmd, c) == /\ obs' = <<"clifiles", Ref(disk[c], cmd)>> /\ hist' = Append(hist, <<cmd, c>>)
+               /\ UNCHANGED <<env, wd, disk, calcs, shared>>
+LNext == \/ \E i \in Ids, c \in Cfgs, v \in Variants : Construct(i, c, v)
+         \/ \E c \in {"A", "C"}, cmd \in {"CliRun", "CliFill"} : Cli(cmd, c)
          \/ \E c \in {"A", "C"}, d \in {"A", "C"} : Rewrite(c, d)
          \/ \E i \in Ids, q \in Quantities : Read(i, q)
          \/ \E i \in Ids, w \in Writes : Write(i, w)
@@ -62,6 +74,7 @@ LView == <<env, wd, disk, calcs, shared, obs>>
 
 \* observations depend on the calculator's configuration only
 ObsLaw == obs[1] \in {"value", "files", "table"} => \E i \in Ids : calcs[i] # "none" /\ obs[2][1] = calcs[i]
+CliLaw == obs[1] = "clifiles" => obs[2][1] \in {disk[c] : c \in Cfgs}
 \* no action touches the module-level state; calculators never change configuration once constructed
 SharedFrozen == [][shared' = shared]_lvars
 \* no action moves the process to another working directory
